@@ -228,7 +228,7 @@ def boom(ctx, dist, nontriv, per_cfg):
         ctx.violation({"kind": "generated-server-does-not-build", "config": "execboom:base", "detail": str(e)[-3000:],
                        "shape": {"config": "execboom:base", "build": "fail"}})
         return
-    rounds = 6 if ctx.tier == "quick" else 40
+    rounds = 18 if ctx.tier == "quick" else 120
     plan0 = {"seed": ctx.seed, "rates": {}}
     sites = [
         ("boom", "query Boom($v: Boolean!) { ok @include(if: $v) boom t { s } }", {"boom": {"kind": "value", "str": "BOOM"}}),
@@ -239,14 +239,16 @@ def boom(ctx, dist, nontriv, per_cfg):
     cases = [{"id": "ref", "transport": "post", "bare": True, "query": "{ ok t { s } }", "plan": plan0}]
     for k in range(rounds):
         name, q, ov = sites[k % len(sites)]
-        tr = ["post", "get", "post", "sse", "multipart", "post"][k % 6]
+        tr = ["post", "get", "post", "sse", "post", "post", "multipart", "post", "post"][k % 9]
         c = {"id": "panic-%d-%s-%s" % (k, name, tr), "transport": tr, "query": q, "variables": {"v": k % 2 == 0},
              "plan": {"seed": ctx.seed, "rates": {}, "overrides": ov}}
         if tr != "get":
             c["operationName"] = "Boom"
         cases.append(c)
         cases.append({"id": "after-%d" % k, "transport": "post", "bare": True, "query": "{ ok t { s } }", "plan": plan0})
-    rc, so, se = vf.sh([b, "-mode", "http"], inp="\n".join(json.dumps(c) for c in cases) + "\n", timeout=600)
+    # one P and no collection: what a transport returns to a sync.Pool is what the next request takes out of it
+    rc, so, se = vf.sh([b, "-mode", "http"], inp="\n".join(json.dumps(c) for c in cases) + "\n", timeout=600,
+                       env={"GOMAXPROCS": "1", "GOGC": "off"})
     if rc != 0:
         ctx.violation({"kind": "crash", "config": "execboom:base", "where": "serialization panic over HTTP", "stderr": se[-4000:],
                        "shape": {"crash": True, "where": "serialization"}, "cases": cases})
